@@ -78,6 +78,13 @@ func ShieldProfile(seed int64, out *Recorder, nOps int) *Chain {
 	// ... and the staking unbonding time is not shorter than the withdraw period (21 days each by default): stake that backs
 	// collateral cannot leave before the collateral does
 	sc.Unbonding = sc.Withdraw + time.Duration(rng.Intn(2))*unit
+	if rng.Intn(4) == 0 {
+		// Outside that domain (one history in four): shorter withdraw and unbonding periods, in either order. Collateral or stake can
+		// then leave while protection or a claim is open; a claim that passes the vote may find its payout impossible, in which case
+		// the proposal must fail (and undo its lock) — the chain must go on.
+		sc.Withdraw = time.Duration(2+rng.Intn(4)) * unit
+		sc.Unbonding = time.Duration(2+rng.Intn(4)) * unit
+	}
 	nVal := 2 + rng.Intn(2)
 	stakes := [][]int64{{1000000000, 1000000000, 1000000000}, {3000000000, 1000000000, 500000000}}[rng.Intn(2)]
 	t0 := time.Unix(1600000000, 0).UTC()
